@@ -45,8 +45,9 @@ def cases(tier, seed, shard, nshards):
             nt = rng.choice([1, 2, 3])
             calls = [[rng.choice(["ret", "ret", "raise"]) for _ in range(rng.randint(1, 5 if nt == 1 else 3))] for _ in range(nt)]
             susp = {"enter": rng.choice([0, 1, 2]), "body": rng.choice([0, 1, 2]), "exit": rng.choice([0, 1, 2])}
-        yield {"mode": mode, "manager": rng.choice(["generator", "generator", "class"]), "suppress": rng.random() < 0.4,
-               "direct": rng.random() < 0.25,
+        manager = rng.choice(["generator", "generator", "class", "lease"])
+        yield {"mode": mode, "manager": manager, "suppress": rng.random() < 0.4,
+               "direct": rng.random() < 0.25 and manager != "lease",
                "calls": calls, "susp": susp, "cancel_task": rng.randrange(nt) if rng.random() < 0.45 else None,
                "runs": DFS_LIMIT[tier] if mode == "dfs" else RANDOM_RUNS[tier], "seed": rng.randrange(1 << 30),
                "exc": rng.choice(PLANNED_NAMES + ["exact:" + k for k in EXACT]),
@@ -108,6 +109,38 @@ def execute(case, choose, cancel_at=None):
                     await Suspend(("exit", gid), susp["exit"])
 
         deco = manager()
+    elif case["manager"] == "lease":
+        class Lease(A.ContextDecorator):
+            """Reusable but not re-entrant: hands out itself while idle and a fresh copy while in use - so what
+            ``_recreate_cm`` answers depends on the moment it is asked."""
+
+            def __init__(self):
+                counter["gid"] += 1
+                self.gid = ("lease", counter["gid"])
+                self.busy = False
+
+            def _recreate_cm(self):
+                return Lease() if self.busy else self
+
+            async def __aenter__(self):
+                if self.busy:
+                    raise RuntimeError(f"lease {self.gid} entered while already in use")
+                self.busy = True
+                ev.append((CTX.current, "enter", self.gid))
+                if susp["enter"]:
+                    await Suspend(("enter", self.gid), susp["enter"])
+                return self
+
+            async def __aexit__(self, et, exc, tb):
+                ev.append((CTX.current, "exit", self.gid, exc))
+                self.busy = False
+                if susp["exit"]:
+                    await Suspend(("exit", self.gid), susp["exit"])
+                if exc is not None and not (suppress and isinstance(exc, Exception)):
+                    translate(exc)
+                return bool(suppress and isinstance(exc, Exception))
+
+        deco = Lease()
     else:
         class Manager(A.ContextDecorator):
             async def __aenter__(self):
